@@ -486,7 +486,8 @@ def gen_pipeline(rng: Random, tag: str = "", n_items: tuple[int, int] = (1, 4), 
 # correlation rules and filters
 
 
-CORR_TYPES = ["event_count", "value_count", "temporal", "temporal_ordered", "value_sum", "value_avg"]
+CORR_TYPES = ["event_count", "value_count", "temporal", "temporal_ordered", "value_sum", "value_avg",
+              "value_median", "value_percentile"]
 
 
 def gen_correlation(rng: Random, title: str, refs: list[str], *, rid: str | None = None,
@@ -498,8 +499,10 @@ def gen_correlation(rng: Random, title: str, refs: list[str], *, rid: str | None
     if generate is not None:
         corr["generate"] = generate
     cond: dict[str, Any] = {pick(rng, ["gte", "gt", "lt", "lte", "eq", "neq"]): rng.randint(1, 10)}
-    if ctype in ("value_count", "value_sum", "value_avg"):
+    if ctype in ("value_count", "value_sum", "value_avg", "value_median", "value_percentile"):
         cond["field"] = pick(rng, FIELDS)
+    if ctype == "value_percentile":
+        cond["percentile"] = pick(rng, [0, 50, 95])
     if ctype in ("temporal", "temporal_ordered") and chance(rng, 0.5):
         pass  # default condition
     else:
